@@ -337,6 +337,7 @@ type acceptCase struct {
 	Situation string `json:"situation"`
 	Mut       *mmut  `json:"mut,omitempty"`
 	Mode      int    `json:"mode"`
+	Own       bool   `json:"own,omitempty"` // path C: the node's own pillar is handed an event for a slot it is not elected for
 }
 
 func prepare(c *xs.Ctx, cfi int, gv *genesisVariant, sit situation) *acceptCtx {
@@ -397,7 +398,7 @@ func runAccept(c *xs.Ctx, r *xs.Result, cfi int, gv *genesisVariant, sit situati
 		if d == nil {
 			return
 		}
-		cs := acceptCase{"accept", cfi, gv.Name, sit.Name, m, mode}
+		cs := acceptCase{Part: "accept", Cfg: cfi, Genesis: gv.Name, Situation: sit.Name, Mut: m, Mode: mode}
 		name := "unmodified"
 		if m != nil {
 			name = m.String()
@@ -465,7 +466,37 @@ func runAccept(c *xs.Ctx, r *xs.Result, cfi int, gv *genesisVariant, sit situati
 			fmt.Sprintf("config %s, genesis %s, situation %s: candidate momentum (%s, %s) was accepted (%s) but the statement's predicate fails: %s",
 				cf.Name, gv.Name, sit.Name, name, mmodes[mode], via, v.clause), cs)
 	}
+	ownPillar := func() {
+		// path C: the node's OWN pillar. A pillar acts on producer events that consensus computed earlier; if such an event has
+		// gone stale (the plan was made while syncing, or a reorganisation replaced the proof momentum) the pillar is asked to
+		// produce in a slot it is not elected for. Whatever it signs must not become the node's frontier.
+		pn := newNode(c, gv, true)
+		defer pn.Destroy()
+		if len(ac.prefix) > 0 {
+			if _, err, pan := pn.InsertChain(vnode.CloneBatch(ac.prefix)); err != nil || pan != nil {
+				panic(fmt.Sprintf("situation %s: producing node refuses the prefix: %v %v", sit.Name, err, pan))
+			}
+		}
+		for _, o := range sit.Pool {
+			strictOp(pn, o)
+		}
+		slot := *ac.valid.Momentum.Timestamp
+		hBefore := pn.Height()
+		pn.ProduceAs(slot, ac.other.Address)
+		r.Count("accept_own_pillar_non_elected_events", 1)
+		if pn.Height() != hBefore {
+			f := pn.Frontier()
+			r.Violate(fmt.Sprintf("C05:accept:%s:own-pillar-momentum-in-a-slot-it-is-not-elected-for:accepted", cf.Name),
+				fmt.Sprintf("configuration %s, genesis %s, situation %s: the local pillar %v was handed a producer event for the slot at %v, for which %v is elected; the node's frontier moved to height %d, produced by %v",
+					cf.Name, gv.Name, sit.Name, ac.other.Address, slot.Unix(), ac.orig.Address, f.Height, f.Producer()),
+				acceptCase{Part: "accept", Cfg: cfi, Genesis: gv.Name, Situation: sit.Name, Own: true})
+		}
+	}
 	if only != nil {
+		if only.Own {
+			ownPillar()
+			return
+		}
 		var m *mmut
 		if only.Mut != nil {
 			for i := range dom {
@@ -496,6 +527,7 @@ func runAccept(c *xs.Ctx, r *xs.Result, cfi int, gv *genesisVariant, sit situati
 			try(&dom[i], mode)
 		}
 	}
+	ownPillar()
 	r.Count("accept_situations_done", 1)
 }
 
